@@ -342,7 +342,7 @@ def write_replay(pid, viol, min_lists, out, verif_seed):
         "lists": min_lists,
         "scenario": out.sample,
         "detail": match[0].detail if match else viol["detail"],
-        "event_log": [repr(e) for e in (out.log or [])][:2000],
+        "event_log": (out.log if isinstance(out.log, str) else repr(out.log))[:200000],
         "digest": digest_of(out),
     }
     with open(path, "w") as fh:
